@@ -474,7 +474,7 @@ func judgeHistory(c HistoryCase) (vs []evid.Violation) {
 			rec.AddExtraCount("bodies_posted", 1)
 		}
 		res, perr := in.Signer.Post(body, 30*time.Second)
-		crashed := !in.Signer.Alive() || (perr != nil && in.Signer.WaitExit(2*time.Second))
+		crashed := !in.Signer.Alive() || (perr != nil && in.Signer.WaitExit(750*time.Millisecond))
 		if crashed {
 			vs = append(vs, evid.V("process-survives", "the ffsigner process died on body %d of the history, %s: %s", i, short(body), in.Signer.ExitInfo(2500)))
 			pool.NoteCrash()
@@ -488,7 +488,7 @@ func judgeHistory(c HistoryCase) (vs []evid.Violation) {
 		}
 		vs = append(vs, judgeReply(body, res.Body, e)...)
 		if err := probe(in); err != nil {
-			if !in.Signer.Alive() || in.Signer.WaitExit(2*time.Second) {
+			if !in.Signer.Alive() || in.Signer.WaitExit(750*time.Millisecond) {
 				vs = append(vs, evid.V("process-survives", "the ffsigner process died after body %d of the history, %s: %s", i, short(body), in.Signer.ExitInfo(2500)))
 				pool.NoteCrash()
 			} else {
